@@ -33,6 +33,15 @@ COMPONENTS = {
 
 
 def generate(rng, tier):
+    dr = prng.Rng(prng.mix(rng.seed, "c06-symlinked-dotdot"))  # a side stream: the main stream stays what it was
+    if dr.chance(3):
+        # lane L: a module declared through `dir/../file.rs` where dir is a symbolic link to a directory elsewhere: the
+        # module is the file the kernel arrives at (next to the link's target), not the one at the lexically folded
+        # path, where an unrelated file sits
+        return {"lane": "dotdot", "module": gen_rust.unformatted(dr, 1 + dr.below(2)), "root_clean": dr.chance(50),
+                "root_body": gen_rust.unformatted(dr, 1), "bystander": dr.choice(["unrelated", "formatted-copy", "not-rust"]),
+                "abs": dr.chance(30), "hashseed": dr.below(1 << 32), "stream_faults": 0, "world": {"files": {}}, "sources": [],
+                "variant": {}, "preformatted": []}
     if rng.chance(6):
         # a module file that is also named as an input of its own and has a nearer rustfmt.toml: formatted under the
         # crate's configuration it is clean as a child of the first input, but not as a root under its own config
@@ -243,7 +252,66 @@ def xml_unescape(s):
             .replace("&gt;", ">").replace("&amp;", "&"))
 
 
+def _lane_dotdot(case):
+    v = Verdict()
+    U = case["module"].encode()
+    with core.Scratch() as sc:
+        sc.fresh_world({"files": {"other/.keep": ""}})
+        r0 = core.run_inv(sc, {"argv": ["--color", "never"], "cwd": "other", "stdin": case["module"], "hashseed": case["hashseed"]})
+        v.account(r0, nontrivial=False)
+        if r0.exit != 0 or r0.signal:
+            v.probe("input-rejected")
+            return v
+        F = r0.stdout
+        r1 = core.run_inv(sc, {"argv": ["--color", "never"], "cwd": "other", "stdin": case["root_body"], "hashseed": case["hashseed"]})
+        v.account(r1, nontrivial=False)
+        if r1.exit != 0 or r1.signal:
+            v.probe("input-rejected")
+            return v
+        decl = '#[path = "gen/../shared.rs"]\nmod shared;\n'
+        root = decl + (r1.stdout.decode() if case["root_clean"] else case["root_body"])
+        by = {"unrelated": b"fn  bystander( ){ }\n", "formatted-copy": F, "not-rust": b"this is {{ not rust\n"}[case["bystander"]]
+        world = {"files": {"c/src/lib.rs": root, "c/src/gen": {"symlink": "../../other/deep"}, "other/deep/.keep": "",
+                           "other/shared.rs": {"b64": _b64(U)}, "c/src/shared.rs": {"b64": _b64(by)}}}
+        arg = "$ROOT/c/src/lib.rs" if case["abs"] else "c/src/lib.rs"
+        tag = "module-behind-symlinked-dotdot"
+
+        def run(argv, readonly):
+            sc.fresh_world(world)
+            snap0 = core.snapshot(sc.root)
+            r = core.run_inv(sc, {"argv": ["--color", "never"] + argv + [arg], "hashseed": case["hashseed"]})
+            v.account(r)
+            ab = core.abnormal(r)
+            if ab:
+                v.add("C06:abnormal|%s|%s" % (tag, ab), "argv=%s status=%s stderr=%r" % (argv, r.status(), core.text_of(r.stderr)[:200]))
+            d = core.snap_diff(snap0, core.snapshot(sc.root))
+            if readonly and (d or r.muts()):
+                v.add("C06:readonly-mode-mutates|%s" % tag, "argv=%s: %s" % (argv, sorted(d)[:3]))
+            return r, d
+        rf, df = run([], False)
+        det = "lib.rs declares #[path = \"gen/../shared.rs\"], gen -> ../../other/deep; bystander (%s) at c/src/shared.rs" % case["bystander"]
+        if rf.exit == 0:
+            if core.read_rel(sc.root, "c/src/shared.rs") != by:
+                v.add("C06:files-mode-touches-unchanged|%s" % tag, "the file at the lexically folded path, which is no part of the crate, was rewritten; " + det)
+            if core.read_rel(sc.root, "other/shared.rs") != F:
+                v.add("C06:files-vs-stdin-text|%s" % tag, "after plain rustfmt the module other/shared.rs does not hold the text its source gives on standard input; " + det)
+        else:
+            v.probe("files-mode-error")
+        rewrites = rf.exit == 0 and bool(df)
+        rc, _ = run(["--check"], True)
+        if rf.exit == 0 and not core.text_of(rc.stderr).strip() and rc.exit != (1 if (U != F or not case["root_clean"]) else 0):
+            v.add("C06:check-exit-vs-rewrite|%s" % tag, "--check exits %s; the module %s formatting; %s" % (rc.status(), "needs" if U != F else "does not need", det))
+        rs, _ = run(["--emit", "stdout"], True)
+        if rs.exit == 0 and F not in rs.stdout:
+            v.add("C06:stdout-vs-stdin-text|%s" % tag, "--emit stdout does not print the text the module's source gives on standard input; " + det)
+        v.probe("symlinked-dotdot-module")
+        v.sample = {"lane": "dotdot", "bystander": case["bystander"], "files_exit": rf.exit, "check_exit": rc.exit, "rewrites": rewrites}
+    return v
+
+
 def execute(case):
+    if case.get("lane") == "dotdot":
+        return _lane_dotdot(case)
     v = Verdict()
     srcs = case["sources"]
     root_rel = case["tree"]["root"]
@@ -599,6 +667,8 @@ def _b64(b):
 
 
 def shrinks(case):
+    if case.get("lane") == "dotdot":
+        return
     if case["stream_faults"]:
         c = copy.deepcopy(case); c["stream_faults"] = 0; yield c
     if case["abs"]:
